@@ -16,8 +16,8 @@ func init() {
 
 // lifecycle functions of the shard that run before the mode is served or re-establish it.
 var shardLifecycle = map[string]string{
-	shardT + ".Init":   "initialises components when the shard is opened (before it serves requests)",
-	shardT + ".Reload": "re-opens the metabase under s.m.Lock and then calls setMode with the configured mode",
+	shardT + ".Init":                "initialises components when the shard is opened (before it serves requests)",
+	shardT + ".Reload":              "re-opens the metabase under s.m.Lock and then calls setMode with the configured mode",
 	shardT + ".resyncObjectHandler": "metabase resynchronisation, started only from Init in read-write mode",
 	shardT + ".resyncMetabase":      "metabase resynchronisation, started only from Init in read-write mode",
 }
@@ -62,11 +62,11 @@ func runC14(p *core.Prog, r *core.Report) {
 		{Name: "db.mode.NoMetabase()==false", Match: func(s core.Site) bool { return s.Name == modeNM && dbMode(s.Call.Common().Args[0]) }, Comps: []core.Comp{{Result: -1, Kind: core.IsFalse}}},
 	}
 	mbLifecycle := map[string]string{
-		"(*pkg/local_object_storage/metabase.DB).Init":     "opened by the shard in the mode being set; Open(readOnly) makes bbolt itself read-only",
-		"(*pkg/local_object_storage/metabase.DB).init":     "same as Init",
-		"(*pkg/local_object_storage/metabase.DB).Reset":    "lifecycle: called from Shard.Init resync only",
-		"(*pkg/local_object_storage/metabase.DB).SetMode":  "re-opens the database",
-		"(*pkg/local_object_storage/metabase.DB).Open":     "lifecycle",
+		"(*pkg/local_object_storage/metabase.DB).Init":    "opened by the shard in the mode being set; Open(readOnly) makes bbolt itself read-only",
+		"(*pkg/local_object_storage/metabase.DB).init":    "same as Init",
+		"(*pkg/local_object_storage/metabase.DB).Reset":   "lifecycle: called from Shard.Init resync only",
+		"(*pkg/local_object_storage/metabase.DB).SetMode": "re-opens the database",
+		"(*pkg/local_object_storage/metabase.DB).Open":    "lifecycle",
 	}
 	isWriteTx := func(n string) bool {
 		return n == "(*github.com/nspcc-dev/bbolt.DB).Update" || n == "(*github.com/nspcc-dev/bbolt.DB).Batch"
